@@ -40,10 +40,11 @@ const (
 	opStream
 	opEditOwn
 	opDeserializeDamaged
+	opParseInvalid
 	opKinds
 )
 
-var concOpNames = [...]string{"parse-small", "parse-large", "parseND", "traverse", "clone+edit", "serialize", "deserialize", "stream", "edit-in-place", "deserialize-damaged"}
+var concOpNames = [...]string{"parse-small", "parse-large", "parseND", "traverse", "clone+edit", "serialize", "deserialize", "stream", "edit-in-place", "deserialize-damaged", "parse-invalid"}
 
 // concWorker is the per-goroutine state; nothing in it is shared with other workers.
 type concWorker struct {
@@ -52,15 +53,16 @@ type concWorker struct {
 	obj   *simObj
 	ser   *simdjson.Serializer
 	blob  *simBlob
-	digs  []uint64 // result digest per op
-	run   *Run     // worker-local oracle context
+	dst   *simdjson.ParsedJson // destination a failed Deserialize of this worker left behind: the caller owns it again
+	digs  []uint64             // result digest per op
+	run   *Run                 // worker-local oracle context
 	notes []string
 }
 
 func drawProgram(c *Chooser, n int) []concOp {
 	ops := make([]concOp, n)
 	for i := range ops {
-		k := c.Pick("cop", 4, 2, 1, 3, 3, 6, 5, 1, 4, 2)
+		k := c.Pick("cop", 4, 2, 1, 3, 3, 6, 5, 1, 4, 2, 2)
 		ops[i] = concOp{kind: k, seed: c.U64("opseed"), mode: c.Intn("cmode", 4)}
 	}
 	// make sure there is something to work on first
@@ -212,6 +214,9 @@ func (w *concWorker) step(i int) uint64 {
 			dst = w.obj.pj
 			w.obj = nil
 		}
+		if w.dst != nil {
+			dst, w.dst = w.dst, nil
+		}
 		if err := safely(func() error { out, derr = w.ser.Deserialize(w.blob.b, dst); return nil }); err != nil {
 			walkerFail(r, "panic", what, err)
 			return 0
@@ -223,6 +228,39 @@ func (w *concWorker) step(i int) uint64 {
 		w.obj = &simObj{pj: out, model: cloneRoots(w.blob.model), nd: w.blob.nd, copy: true, origin: what}
 		readBack(r, w.obj, bInto|bAdv, what, nil)
 		f.u64(tapeDigest(out))
+	case opParseInvalid:
+		// an invalid document, possibly with this worker's own object as reuse: the call fails; nobody else may notice
+		d := GenDoc(c, DocSpec{Family: FamMixed, Target: 20 + c.Intn("sz", 600), WS: c.Pick("ws", 4, 2, 1), Record: true, MaxDepth: 4, StrMax: 60})
+		if c.Intn("big", 4) == 0 {
+			d = GenDoc(c, DocSpec{Family: FamMixed, Target: 9000 + c.Intn("lsz", 20000), WS: 1, Record: true})
+		}
+		bad := ApplyDefect(c, d, []int{DefMissingComma, DefBadAtom, DefUnbalanced, DefTruncate, DefCtrlInString, DefMissingColon}[c.Intn("def", 6)], c.Intn("defpos", 4))
+		nd := c.Intn("nd", 2) == 1
+		if ref := refFor(bad, nd); ref.OK || ref.Ambiguous {
+			return f.h
+		}
+		var reuse *simdjson.ParsedJson
+		if w.obj != nil && w.obj.pj != nil && c.Intn("reuse", 2) == 0 {
+			reuse = w.obj.pj
+			w.obj = nil
+		}
+		var perr error
+		if err := safely(func() error {
+			if nd {
+				_, perr = simdjson.ParseND(bad, reuse)
+			} else {
+				_, perr = simdjson.Parse(bad, reuse)
+			}
+			return nil
+		}); err != nil {
+			walkerFail(r, "panic", what, err)
+			return 0
+		}
+		if perr == nil {
+			r.violate("solo-equal", "invalid-accepted", what+": invalid document accepted")
+			return 0
+		}
+		f.u64(1)
 	case opDeserializeDamaged:
 		if w.blob == nil {
 			return f.h
@@ -241,12 +279,26 @@ func (w *concWorker) step(i int) uint64 {
 			bad[len(bad)-1] ^= 0x5a
 		}
 		var derr error
-		if err := safely(func() error { _, derr = simdjson.NewSerializer().Deserialize(bad, nil); return nil }); err != nil {
+		ser, dst := simdjson.NewSerializer(), (*simdjson.ParsedJson)(nil)
+		if c.Intn("dmgown", 2) == 0 {
+			// with the worker's own Serializer, into the worker's own object: after the failed call both are the
+			// caller's again and the next Deserialize of this worker reuses that destination
+			ser = w.ser
+			if w.obj != nil && w.obj.pj != nil {
+				dst = w.obj.pj
+				w.obj = nil
+			}
+		}
+		var out *simdjson.ParsedJson
+		if err := safely(func() error { out, derr = ser.Deserialize(bad, dst); return nil }); err != nil {
 			walkerFail(r, "panic", what, err)
 			return 0
 		}
 		if derr != nil {
 			f.u64(1)
+			w.dst = dst
+		} else if dst != nil {
+			w.dst = out
 		}
 	case opStream:
 		var buf bytes.Buffer
